@@ -100,6 +100,19 @@ func V2Parents(txn types.V2Transaction) []types.Hash256 {
 	return out
 }
 
+// V2ProofIndexes returns the ids of the chain index elements (= block ids) that
+// the transaction's storage proofs refer to: elements it consumes without
+// spending them. If such a block is reverted the transaction becomes invalid.
+func V2ProofIndexes(txn types.V2Transaction) []types.Hash256 {
+	var out []types.Hash256
+	for _, r := range txn.FileContractResolutions {
+		if sp, ok := r.Resolution.(*types.V2StorageProof); ok {
+			out = append(out, types.Hash256(sp.ProofIndex.ID))
+		}
+	}
+	return out
+}
+
 // V1Creates / V2Creates return the element ids a transaction creates.
 func V1Creates(txn types.Transaction) []types.Hash256 {
 	var out []types.Hash256
@@ -202,6 +215,9 @@ func (l *Ledger) RebaseV2(txn types.V2Transaction, ephemeral map[types.Hash256]b
 // are included.
 func NodeTouched(n *Node) Touched {
 	t := BlockTouched(n.Block)
+	// every block creates its chain index element (the element a v2 storage
+	// proof's ProofIndex refers to); its id is the block id
+	t.Created[types.Hash256(n.ID)] = true
 	if n.L == nil || n.Parent == nil || n.Parent.L == nil {
 		return t
 	}
